@@ -157,15 +157,15 @@ def run_k2(facts, ctx, inv=None, watch=()):
     try:
         b = facts.one("get_downlink_format")
         st, dfo = I.run_body(st, b, [mref])
-        if not (isinstance(dfo, EnumV) and dfo.only("Some") and dfo.payload("Some").is_const()):
-            res.diverged = "df not a constant Some: %r" % (dfo,)
+        if not (isinstance(dfo, EnumV) and dfo.only("Some") and isinstance(dfo.payload("Some"), IntV) and dfo.payload("Some").is_const()):
+            res.diverged = "imprecise: downlink format of the accepted frame not determined (%r)" % (dfo,)
             return res
         df = dfo.payload("Some")
         res.df = df.lo
         st, io = I.run_body(st, facts.one("get_icao"), [mref, df])
         res.icao_opt = io
         if not (isinstance(io, EnumV) and io.may("Some")):
-            res.diverged = "icao never Some: %r" % (io,)
+            res.diverged = "imprecise: address never available: %r" % (io,)
             return res
         I.install_guard(st, io.variants["Some"][1])
         icao = I.resolve(st, io.payload("Some"))
